@@ -122,11 +122,48 @@ def sum_chain(terms, op='+'):
     return e
 
 
+def drop_where1(body):
+    """one-line WHERE -> WHERE construct (in place); returns the number of rewritten statements"""
+    n = 0
+    for i, s in enumerate(body):
+        k = s[0]
+        if k == 'where1':
+            body[i] = ['where', [[s[1], [s[2]]]]]
+            n += 1
+        elif k == 'do':
+            n += drop_where1(s[5])
+        elif k == 'while':
+            n += drop_where1(s[2])
+        elif k == 'if':
+            for _, b in s[1]:
+                n += drop_where1(b)
+            if s[2] is not None:
+                n += drop_where1(s[2])
+        elif k == 'select':
+            for _, b in s[2]:
+                n += drop_where1(b)
+            if s[3] is not None:
+                n += drop_where1(s[3])
+    return n
+
+
 @st.composite
-def cases(draw, prof=None):
+def cases(draw, prof=None, where1=True):
+    """where1=False: one-line WHERE statements are written as constructs (listed known finding of C04)"""
     prof = prof or gen.profile(max_depth=4)
     case = draw(gen.cases(prof))
     g = gen.G(draw, prof)
+    if not where1:
+        n = 0
+        for f in case['files']:
+            for kind, u in f['units']:
+                if kind == 'module':
+                    for r in u['routines']:
+                        n += drop_where1(r['body'])
+                        for c in r.get('contains') or []:
+                            n += drop_where1(c['body'])
+        if n:
+            case['excluded'] = {'known:one-line-where-rewrapped': n}
     # ---- long identifiers
     ids = identifiers(case)
     mapping, used = {}, set(k.lower() for k in ids) | {'kernel', 'kmod', 'n', 'hmany', 'kplong', 'acc'}
